@@ -95,6 +95,13 @@
      (a) v is in the dependency list of an uncompleted task w (w yielded v), or (b) a caller w is suspended in value() on
      r: the frames contain  FWait r :: FValue w k  (w called r synchronously).  For yield-only programs only (a) occurs
      and this is C07_layer_owners_await.
+   WITHOUT THE HYPOTHESIS no_unwind (end of the file; proofs/MachineNoUnwind.v, MachineGuardForms.v): the tree-
+   program theorems are stated again as C07_values_restored_guard, C07_reads_see_enclosing_overrides_guard,
+   C07_reads_innermost_guard, C07_layer_owners_await_guard, C07_contexts_nest_lifo_guard. These forms need no
+   assumption about exceptions unwinding: FutureIsAlreadyComputed is proved unreachable for tree programs, so only
+   the runaway guard's RuntimeError can unwind through asynq's frames, and the hypothesis "the guard has not fired
+   before step n" (forall k < n, guard_fires P (run P k c0) = false; guard_fires is the boolean test at the head of
+   the _execute loop) is a decidable condition on the run.
    NOT PROVED for stree: an end-to-end equation with a sequential evaluator for scoped values (as for tree programs the
      read theorem is stated on the machine state at the moments a task's code runs).  Still excluded:
      ReadVar/Probe-branching programs, Sync on an existing
@@ -348,3 +355,65 @@ Theorem C07_stree_hypotheses_are_met :
   x 200%nat = VInt 0.
 Proof. exact c07s_demo_runs. Qed.
 Print Assumptions C07_stree_hypotheses_are_met.
+
+(* ==== the same WITHOUT an assumption about exceptions unwinding (proofs/MachineNoUnwind.v, MachineGuardForms.v) ====
+   [no_unwind] is replaced by "the MAX_TASK_STACK_SIZE guard has not fired before step n":
+   forall k < n, guard_fires P (run P k c0) = false, where guard_fires is the boolean test at the head of the
+   _execute loop in Machine.step.  For tree programs under a pointwise service the two say the same:
+   FutureIsAlreadyComputed is proved unreachable, so the guard's RuntimeError is the only exception that can
+   unwind through asynq's frames. *)
+From Asynq Require Import proofs.MachineNoUnwind proofs.MachineGuardForms.
+Theorem C07_values_restored_guard : forall P, pointwise P -> forall p, tree p -> wn [] p -> forall n,
+  let h := fst (create [] (FTask p) (st0 P)) in
+  let s1 := snd (create [] (FTask p) (st0 P)) in
+  (forall k, (k < n)%nat -> guard_fires P (run P k (start h s1)) = false) ->
+  (c_mode (run P n (start h s1)) = MAfterExec \/ exists o, c_mode (run P n (start h s1)) = MDone o) ->
+  forall x, var_get x (c_st (run P n (start h s1))) = var_get x s1.
+Proof. exact values_restored_tree_guard. Qed.
+Print Assumptions C07_values_restored_guard.
+
+Theorem C07_reads_see_enclosing_overrides_guard : forall P, pointwise P -> forall p, tree p -> wn [] p -> forall n t q,
+  let h := fst (create [] (FTask p) (st0 P)) in
+  let s1 := snd (create [] (FTask p) (st0 P)) in
+  (forall k, (k < n)%nat -> guard_fires P (run P k (start h s1)) = false) ->
+  c_mode (run P n (start h s1)) = MRun t q ->
+  let s := c_st (run P n (start h s1)) in
+  (forall x, var_get x s = apply_l (fun x => var_get x s1) (layers s) x) /\
+  exists tk rest, get t s = Some (mkFut None (KTask tk)) /\ tk_cact tk = true /\ wn (tk_ctxs tk) q /\
+    tasks s = t :: rest /\ layers s = lower s rest ++ map (pair t) (tk_ctxs tk) /\
+    forall u c, In (u, c) (lower s rest) ->
+      In u rest /\ exists tku, get u s = Some (mkFut None (KTask tku)) /\ tk_cact tku = true /\ In c (tk_ctxs tku).
+Proof. exact reads_see_enclosing_overrides_tree_guard. Qed.
+Print Assumptions C07_reads_see_enclosing_overrides_guard.
+
+Theorem C07_reads_innermost_guard : forall P, pointwise P -> forall p, tree p -> wn [] p -> forall n t q x,
+  let h := fst (create [] (FTask p) (st0 P)) in
+  let s1 := snd (create [] (FTask p) (st0 P)) in
+  (forall k, (k < n)%nat -> guard_fires P (run P k (start h s1)) = false) ->
+  c_mode (run P n (start h s1)) = MRun t q ->
+  let s := c_st (run P n (start h s1)) in
+  (forall pre u cid v post, layers s = pre ++ (u, COverride cid x v) :: post ->
+     (forall l, In l post -> ovar (snd l) <> Some x) -> var_get x s = v) /\
+  ((forall l, In l (layers s) -> ovar (snd l) <> Some x) -> var_get x s = var_get x s1).
+Proof. exact reads_innermost_tree_guard. Qed.
+Print Assumptions C07_reads_innermost_guard.
+
+Theorem C07_layer_owners_await_guard : forall P, pointwise P -> forall p, tree p -> forall n t q,
+  let h := fst (create [] (FTask p) (st0 P)) in
+  let s1 := snd (create [] (FTask p) (st0 P)) in
+  (forall k, (k < n)%nat -> guard_fires P (run P k (start h s1)) = false) ->
+  c_mode (run P n (start h s1)) = MRun t q ->
+  let s := c_st (run P n (start h s1)) in
+  forall rest, tasks s = t :: rest -> forall u c, In (u, c) (lower s rest) -> reach s u t.
+Proof. exact layer_owners_await_tree_guard. Qed.
+Print Assumptions C07_layer_owners_await_guard.
+
+(* the step n -> n+1 is covered: the guard must be silent strictly before n only *)
+Theorem C07_contexts_nest_lifo_guard : forall P, pointwise P -> forall p, tree p -> wn [] p -> forall n,
+  let h := fst (create [] (FTask p) (st0 P)) in
+  let s1 := snd (create [] (FTask p) (st0 P)) in
+  (forall k, (k < n)%nat -> guard_fires P (run P k (start h s1)) = false) ->
+  exists l, layers (c_st (run P (S n) (start h s1))) = layers (c_st (run P n (start h s1))) ++ l \/
+            layers (c_st (run P n (start h s1))) = layers (c_st (run P (S n) (start h s1))) ++ l.
+Proof. exact contexts_nest_lifo_tree_guard. Qed.
+Print Assumptions C07_contexts_nest_lifo_guard.
